@@ -42,6 +42,7 @@ OPCODE_FILES = ('interpret/byte.py', 'number/gmputils.py', 'number/engine/engine
                 'interpret/value.py', 'interpret/interpreter.py')
 
 _NS: dict[str, dict] = {}
+DEFAULT_RECURSION_LIMIT = 1000
 
 
 # --------------------------------------------------------------------------
@@ -362,6 +363,10 @@ def gen_run(seed: int, tier: str, sub: str) -> dict:
         names = rotate(amb, srot, r.randint(1, 2))
         if sns == 'main' and srot % 2 == 0:
             names = rotate(m['PINNED'], srot // 2, 1) + names[:1]
+        if sns == 'main' and srot % 3 == 1 and 'deep_chain' in m['SIG']:
+            # every third stampede has the deepest program in it: a compilation that is in flight for
+            # long (and lives on process-wide settings such as the recursion limit) while others come and go
+            names = names[:1] + ['deep_chain']
         for name in names:
             args = catalogue(sns, name, meta[sns]['SIG'][name])[r.randrange(4)]
             for cname in r.sample(CTX_NAMES, 2):
@@ -689,6 +694,8 @@ def _publish_probe() -> int:
 def execute_run(run: dict) -> dict:
     """Runs in the forked child.  Returns the recorded history and scheduler statistics."""
     import fpy2 as fp
+    # the interpreter's default, which is what a deployment has (the harness itself runs with more)
+    sys.setrecursionlimit(DEFAULT_RECURSION_LIMIT)
     from fpy2.number.engine import register_engine
     cfg = run['cfg']
     n = cfg['nthreads']
@@ -762,6 +769,10 @@ def execute_run(run: dict) -> dict:
                         except SimCancel:
                             sc.rearm(i)
                             outcome, res = ['cancelled'], None
+                        if sys.gettrace() is None:
+                            # CPython drops a thread's trace function when calling it fails (a program
+                            # at the recursion limit): the next operation is pre-emptible again
+                            sc.rearm(i)
                         steps = sc.end_op(i)
                         after = [V.snap_deep(a) for a in args]
                         rec['outcome'] = outcome
@@ -930,6 +941,7 @@ def _ref_eval(key: dict, args_spec: list, ctxname) -> list:
     ns, name = key['root']
     sp = load_ns(ns)
     fn = sp[name]
+    sys.setrecursionlimit(DEFAULT_RECURSION_LIMIT)
     if 'factory' in key:
         fn = fn(key['factory'])
     try:
